@@ -65,7 +65,7 @@ whatever the rule for the next node - yields, listed along the pattern nodes, an
 verified checker `oneRepPerClass` accepts against the reference answer: only induced subgraph
 isomorphisms, none twice, no two that differ by a symmetry of the pattern, and every isomorphism is
 symmetry-equivalent to a yielded one. -/
-theorem ismags_find_one_per_class {pick : Cands → List Int → Int} (hpick : PickOK pick) (edgeNone : Bool)
+theorem ismags_find_one_per_class {pick : Map → Cands → List Int → Int} (hpick : PickOK pick) (edgeNone : Bool)
     (g sg : Graph) (C : Constraints) (hs : sg.keys.Nodup) (hg : g.keys.Nodup) (hloop : noSelfLoops sg = true)
     (hvalid : constraintsValidB sg C = true) :
     oneRepPerClass sg ((findIsomorphismsWith pick edgeNone g sg C).map (fun m => mapOf sg.keys (Map.toFun m)))
@@ -99,7 +99,7 @@ theorem ismags_find_one_per_class {pick : Cands → List Int → Int} (hpick : P
 
 /-- in the words of the property: for every induced subgraph isomorphism `f` there is exactly one
 yielded mapping that differs from `f` only by a symmetry of the pattern -/
-theorem ismags_find_exactly_one_rep {pick : Cands → List Int → Int} (hpick : PickOK pick) (edgeNone : Bool)
+theorem ismags_find_exactly_one_rep {pick : Map → Cands → List Int → Int} (hpick : PickOK pick) (edgeNone : Bool)
     (g sg : Graph) (C : Constraints) (hs : sg.keys.Nodup) (hg : g.keys.Nodup) (hloop : noSelfLoops sg = true)
     (hvalid : constraintsValidB sg C = true) (f : Int → Int) (hf : IsIndIso g sg f) :
     ∃ m ∈ (findIsomorphismsWith pick edgeNone g sg C).map (fun m => mapOf sg.keys (Map.toFun m)),
